@@ -72,7 +72,7 @@ func init() {
 		Assume:      []string{"yamux with default config (keep-alive on) fails a session whose peer is gone", "grpc-go fails RPCs on a closed connection"},
 	})
 	register(&propDef{ID: "C04",
-		Rules: []func(*Ctx){ruleOrderO4,
+		Rules: []func(*Ctx){ruleKillCtx, ruleOrderO4,
 			ruleKill, ruleBoundRPC, scoped(ruleBoundScoped, fnIn("Client.Kill", "CleanupClients")), ruleSibClose, ruleWG,
 			guardOn("Client.", "managedClients", "RPCServer.DoneCh", "GRPCServer.broker"), ruleClose1,
 		},
@@ -82,7 +82,7 @@ func init() {
 		Assume:      []string{"context.WithTimeout bounds a unary gRPC call", "os.Process.Kill delivers SIGKILL"},
 	})
 	register(&propDef{ID: "C05",
-		Rules: []func(*Ctx){ruleOrderO4,
+		Rules: []func(*Ctx){ruleKillCtx, ruleOrderO4,
 			ruleOrderStart, scoped(ruleErrL2Scoped, startPath), scoped(ruleErrL1Scoped, startPath), ruleKill, ruleSocketDir,
 		},
 		Technique:   "dominance/ordering queries on Client.Start (runner recorded before launch; kill-on-error defer registered right after a successful launch and reading the named result), error-path interpretation, Kill path enumeration",
